@@ -29,7 +29,7 @@ CT = "dds.codecs.databricks.CommitType"
 
 
 def documented_commit_types(ctx: Ctx) -> List[str]:
-    f = ctx.prog.funcs.get("dds.set_store")
+    f = ctx.prog.func("dds.set_store")
     if f is None:
         raise AnchorError("dds.set_store (public API) not found")
     doc = ast.get_docstring(f.node) or ""
@@ -329,7 +329,7 @@ def run(ctx: Ctx) -> None:
 
     # ---- R1 decode ------------------------------------------------------------------------------
     docs = documented_commit_types(ctx)
-    f = prog.funcs.get("dds._api.set_store")
+    f = prog.func("dds._api.set_store")
     if f is None:
         raise AnchorError("dds._api.set_store not found")
 
@@ -415,7 +415,7 @@ def run(ctx: Ctx) -> None:
     # ---- R6: the aliases stay registered -------------------------------------------------------------------------
     rep.rule("C19.R6", "legacy aliases are item stores into the registry's reference table from outside the registry class: no registry method "
                        "other than the constructor replaces or empties that table (a later registration must not drop them)")
-    reg = prog.classes.get("dds.codec.CodecRegistry")
+    reg = prog.cls("dds.codec.CodecRegistry")
     if reg is None:
         raise AnchorError("dds.codec.CodecRegistry not found")
     outside: Dict[str, List[Tuple[Func, ast.AST]]] = {}
